@@ -13,13 +13,14 @@ variable {σ P : Type}
 
 /- the fragment (after pass0): simple statements, blocks, if / else-if chains (no yield in the
    initialiser: finding D12), for loops (`:=` initialisers already hoisted), break, continue,
-   `return seq.Return()`.  Not in the fragment: switch, fallthrough. -/
+   `return seq.Return()`, expression switches (tagged or tag-less).  Not in the fragment: fallthrough. -/
 mutual
   def fragS : Stmt → Bool
     | .simple _ => true
     | .block ss => fragL ss
     | .ifs init _ thn els => !optIsYield init && fragL thn && fragE els
     | .for_ init _ _ body => !optIsDefine init && fragL body
+    | .switch init _ cases => !optIsDefine init && fragC cases
     | .brk => true
     | .cont => true
     | .rete (.sig .ret) => true
@@ -31,6 +32,9 @@ mutual
     | .none => true
     | .els ss => fragL ss
     | .elif s => fragS s
+  def fragC : Cases → Bool
+    | .nil => true
+    | .cons _ _ body r => fragL body && fragC r
 end
 
 /-- outcomes of source statements of the fragment -/
@@ -101,6 +105,40 @@ theorem loopF_src (cond : σ → Except P Bool × σ) (post body : σ → Res Fl
         | nft => exact .done ho
         | exit s => exact .done ho
 
+/-- outcomes of a switch statement: `fall`, or whatever its clause bodies produce except an own `break` -/
+theorem switch_all (p : Flow → Prop) (hfall : p .fall) (ρ : Interp σ P) (N : Nat) (susp : Bool)
+    (init : Option Simple) (tag : Option CondE) (cases : Cases)
+    (hC : ∀ i st, Res.All (fun o => o ≠ Flow.nbrk → p o) (denFrom ρ N susp cases i st)) (st : σ) :
+    Res.All p (denS ρ N susp (.switch init tag cases) st) := by
+  simp only [denS]
+  refine (Res.all_true _).bind fun _ st1 _ => ?_
+  have body : ∀ (tv : Option Nat) (st2 : σ), Res.All p
+      (match selectCase ρ cases tv 0 st2 with
+        | (.error e, st3) => (.panic e st3 : Res Flow σ P)
+        | (.ok idx, st3) =>
+          match (match idx with | some i => some i | none => defaultIndex cases 0) with
+          | none => .done .fall st3
+          | some i => (denFrom ρ N susp cases i st3).bind fun o st4 =>
+              if o = Flow.nbrk then .done .fall st4 else .done o st4) := by
+    intro tv st2
+    rcases selectCase ρ cases tv 0 st2 with ⟨_ | idx, st3⟩
+    · exact .panic
+    · simp only
+      split
+      · exact .done hfall
+      · rename_i i _
+        refine (hC i st3).bind fun o st4 ho => ?_
+        by_cases hb : o = .nbrk
+        · simp only [hb, if_true]; exact .done hfall
+        · simp only [hb, if_false]; exact .done (ho hb)
+  cases tag with
+  | none => exact body none st1
+  | some t =>
+    simp only
+    rcases ρ.tag t.n st1 with ⟨_ | v, st2⟩
+    · exact .panic
+    · exact body (some v) st2
+
 mutual
   theorem fragS_src (ρ : Interp σ P) (N : Nat) (susp : Bool) :
       ∀ (s : Stmt), fragS s = true → ∀ st, Res.All SrcOut (denS ρ N susp s st)
@@ -136,7 +174,36 @@ mutual
     | .rete (.loop _ _ _), h, _ => by simp [fragS] at h
     | .rete (.start _), h, _ => by simp [fragS] at h
     | .rete (.unknown _), h, _ => by simp [fragS] at h
-    | .switch _ _ _, h, _ => by simp [fragS] at h
+    | .switch init tag cases, h, st => by
+        simp only [fragS, Bool.and_eq_true] at h
+        simp only [denS]
+        refine (Res.all_true _).bind fun _ st1 _ => ?_
+        have body : ∀ (tv : Option Nat) (st2 : σ), Res.All SrcOut
+            (match selectCase ρ cases tv 0 st2 with
+              | (.error p, st3) => (.panic p st3 : Res Flow σ P)
+              | (.ok idx, st3) =>
+                match (match idx with | some i => some i | none => defaultIndex cases 0) with
+                | none => .done .fall st3
+                | some i => (denFrom ρ N susp cases i st3).bind fun o st4 =>
+                    if o = .nbrk then .done .fall st4 else .done o st4) := by
+          intro tv st2
+          rcases selectCase ρ cases tv 0 st2 with ⟨_ | idx, st3⟩
+          · exact .panic
+          · simp only
+            split
+            · exact .done (.inl rfl)
+            · rename_i i _
+              refine (fragC_src ρ N susp cases h.2 i st3).bind fun o st4 ho => ?_
+              by_cases hb : o = .nbrk
+              · simp only [hb, if_true]; exact .done (.inl rfl)
+              · simp only [hb, if_false]; exact .done ho
+        cases tag with
+        | none => exact body none st1
+        | some t =>
+          simp only
+          rcases ρ.tag t.n st1 with ⟨_ | v, st2⟩
+          · exact .panic
+          · exact body (some v) st2
     | .fallthrough, h, _ => by simp [fragS] at h
     | .ret, h, _ => by simp [fragS] at h
     | .unknown _, h, _ => by simp [fragS] at h
@@ -155,6 +222,20 @@ mutual
     | .none, _, st => .done (.inl rfl)
     | .els ss, h, st => by simp only [fragE] at h; simp only [denElse]; exact fragL_src ρ N susp ss h st
     | .elif s, h, st => by simp only [fragE] at h; simp only [denElse]; exact fragS_src ρ N susp s h st
+  theorem fragC_src (ρ : Interp σ P) (N : Nat) (susp : Bool) :
+      ∀ (cs : Cases), fragC cs = true → ∀ (i : Nat) st, Res.All SrcOut (denFrom ρ N susp cs i st)
+    | .nil, _, _, st => .done (.inl rfl)
+    | .cons _ _ body r, h, 0, st => by
+        simp only [fragC, Bool.and_eq_true] at h
+        simp only [denFrom]
+        refine (fragL_src ρ N susp body h.1 st).bind fun o st' ho => ?_
+        by_cases hn : o = .nft
+        · rcases ho with ho | ho | ho | ho <;> rw [hn] at ho <;> cases ho
+        · simp only [hn, if_false]; exact .done ho
+    | .cons _ _ _ r, h, i+1, st => by
+        simp only [fragC, Bool.and_eq_true] at h
+        simp only [denFrom]
+        exact fragC_src ρ N susp r h.2 i st
 end
 
 theorem fragS_plain (ρ : Interp σ P) (N : Nat) (susp : Bool) (s : Stmt) (h : fragS s = true) (st : σ) :
@@ -276,7 +357,54 @@ mutual
     | .brk, _, _, _ => rfl
     | .cont, _, _, _ => rfl
     | .rete _, _, _, _ => rfl
-    | .switch _ _ _, h, _, _ => by simp [fragS] at h
+    | .switch init tag cases, hf, st, h => by
+        simp only [fragS, Bool.and_eq_true] at hf
+        simp only [denS] at h ⊢
+        have body : ∀ (tv : Option Nat) (st2 : σ), Res.NoY
+            (match selectCase ρ cases tv 0 st2 with
+              | (.error p, st3) => (.panic p st3 : Res Flow σ P)
+              | (.ok idx, st3) =>
+                match (match idx with | some i => some i | none => defaultIndex cases 0) with
+                | none => .done .fall st3
+                | some i => (denFrom ρ N true cases i st3).bind fun o st4 =>
+                    if o = Flow.nbrk then .done .fall st4 else .done o st4) →
+            (match selectCase ρ cases tv 0 st2 with
+              | (.error p, st3) => (.panic p st3 : Res Flow σ P)
+              | (.ok idx, st3) =>
+                match (match idx with | some i => some i | none => defaultIndex cases 0) with
+                | none => .done .fall st3
+                | some i => (denFrom ρ N false cases i st3).bind fun o st4 =>
+                    if o = Flow.nbrk then .done .fall st4 else .done o st4) =
+            (match selectCase ρ cases tv 0 st2 with
+              | (.error p, st3) => (.panic p st3 : Res Flow σ P)
+              | (.ok idx, st3) =>
+                match (match idx with | some i => some i | none => defaultIndex cases 0) with
+                | none => .done .fall st3
+                | some i => (denFrom ρ N true cases i st3).bind fun o st4 =>
+                    if o = Flow.nbrk then .done .fall st4 else .done o st4) := by
+          intro tv st2 hn
+          generalize selectCase ρ cases tv 0 st2 = sc at hn ⊢
+          rcases sc with ⟨_ | idx, st3⟩
+          · rfl
+          · simp only at hn ⊢
+            split
+            · rfl
+            · rename_i i hi
+              simp only [hi] at hn
+              rw [fragC_noY ρ N cases hf.2 i st3 ((Res.NoY.bind_iff.mp hn).1)]
+        rcases noY_bind_cases h with ⟨o, st1, hr, hn⟩ | ⟨p, st1, hr⟩ | hr
+        · rw [denInit_noY ρ init st (by rw [hr]; exact .done), hr]
+          simp only [Res.bind] at hn ⊢
+          cases tag with
+          | none => exact body none st1 hn
+          | some t =>
+            simp only at hn ⊢
+            generalize ρ.tag t.n st1 = tr at hn ⊢
+            rcases tr with ⟨_ | v, st2⟩
+            · rfl
+            · exact body (some v) st2 hn
+        · rw [denInit_noY ρ init st (by rw [hr]; exact .panic), hr]; rfl
+        · rw [denInit_noY ρ init st (by rw [hr]; exact .oob), hr]; rfl
     | .fallthrough, h, _, _ => by simp [fragS] at h
     | .ret, h, _, _ => by simp [fragS] at h
     | .unknown _, h, _, _ => by simp [fragS] at h
@@ -303,6 +431,25 @@ mutual
         simp only [fragE] at hf; simp only [denElse] at h ⊢; exact fragL_noY ρ N ss hf st h
     | .elif s, hf, st, h => by
         simp only [fragE] at hf; simp only [denElse] at h ⊢; exact fragS_noY ρ N s hf st h
+  theorem fragC_noY (ρ : Interp σ P) (N : Nat) :
+      ∀ (cs : Cases), fragC cs = true → ∀ (i : Nat) st, Res.NoY (denFrom ρ N true cs i st) →
+        denFrom ρ N false cs i st = denFrom ρ N true cs i st
+    | .nil, _, _, _, _ => rfl
+    | .cons _ _ body r, hf, 0, st, h => by
+        simp only [fragC, Bool.and_eq_true] at hf
+        simp only [denFrom] at h ⊢
+        rcases noY_bind_cases h with ⟨o, st1, hr, hn⟩ | ⟨p, st1, hr⟩ | hr
+        · rw [fragL_noY ρ N body hf.1 st (by rw [hr]; exact .done), hr]
+          simp only [Res.bind] at hn ⊢
+          by_cases hft : o = .nft
+          · simp only [hft, if_true] at hn ⊢; exact fragC_noY ρ N r hf.2 0 st1 hn
+          · simp only [hft, if_false]
+        · rw [fragL_noY ρ N body hf.1 st (by rw [hr]; exact .panic), hr]; rfl
+        · rw [fragL_noY ρ N body hf.1 st (by rw [hr]; exact .oob), hr]; rfl
+    | .cons _ _ _ r, hf, i+1, st, h => by
+        simp only [fragC, Bool.and_eq_true] at hf
+        simp only [denFrom] at h ⊢
+        exact fragC_noY ρ N r hf.2 i st h
 end
 
 end GoCo.MG
